@@ -341,6 +341,69 @@ func init() {
 			selections += local
 		}
 
+		// document rule selection: every list of <=4 referrer-level exceptions in every permutation
+		docPool := []srule{
+			{true, "||src.org^", []string{"urlblock"}}, {true, "||src.org^", []string{"genericblock"}}, {true, "||src.org^", []string{"document"}},
+			{true, "||src.org^", []string{"urlblock", "important"}}, {true, "||src.org^", []string{"genericblock", "jsinject"}},
+			{true, "||src.org^", []string{"stealth", "urlblock"}}, {true, "||src.org^", []string{"urlblock", "domain=a.com"}},
+			{true, "||src.org^", []string{"elemhide"}}, {true, "||src.org^", []string{"stealth"}}, {true, "||src.org^", []string{"genericblock", "important", "stealth"}},
+		}
+		docRules := make([]*rules.NetworkRule, len(docPool))
+		for i, d := range docPool {
+			docRules[i] = d.parse()
+		}
+		isDocLevel := func(d srule) bool { return d.has("urlblock") || d.has("genericblock") || d.has("document") }
+		docKey := func(d srule) [3]int {
+			k := d.key()
+			if d.has("document") {
+				k[2] += 4 // $document stands for five modifiers
+			}
+			return k
+		}
+		var docSelections int64
+		for size := 1; size <= 4; size++ {
+			enum.Combinations(len(docPool), size, func(sub []int) bool {
+				var best *[3]int
+				for _, i := range sub {
+					if isDocLevel(docPool[i]) {
+						k := docKey(docPool[i])
+						if best == nil || keyLess(*best, k) {
+							best = &k
+						}
+					}
+				}
+				enum.Permutations(size, func(p []int) bool {
+					cands := make([]*rules.NetworkRule, size)
+					var texts []string
+					for i, j := range p {
+						cands[i] = docRules[sub[j]]
+						texts = append(texts, docPool[sub[j]].text())
+					}
+					docSelections++
+					dr := rules.NewMatchingResult(nil, cands).DocumentRule
+					switch {
+					case best == nil && dr != nil:
+						c.Run.Violate(ev.Violation{Pred: "document-rule-is-document-level", Sig: map[string]any{"rules": texts}, What: fmt.Sprintf("source rules %v: DocumentRule = %q although no rule is document-level", texts, dr.RuleText), Replay: map[string]any{"rules": []string{}}})
+					case best != nil && dr == nil:
+						c.Run.Violate(ev.Violation{Pred: "document-rule-selected", Sig: map[string]any{"rules": texts}, What: fmt.Sprintf("source rules %v: no DocumentRule selected", texts), Replay: map[string]any{"rules": []string{}}})
+					case best != nil:
+						var got [3]int
+						for i, d := range docPool {
+							if docRules[i] == dr {
+								got = docKey(d)
+							}
+						}
+						if got != *best {
+							c.Run.Violate(ev.Violation{Pred: "document-rule-is-maximal", Sig: map[string]any{"rules": texts}, What: fmt.Sprintf("source rules %v: DocumentRule = %q with key %v, the maximal key is %v", texts, dr.RuleText, got, *best), Replay: map[string]any{"rules": []string{}}})
+						}
+					}
+					return true
+				})
+				return true
+			})
+		}
+		c.Run.Set("document_rule_selections", docSelections)
+
 		c.Run.Sample(map[string]any{"pair": []string{pool[1].text, pool[n-1].text}, "first_outranks_second": M.get(1, n-1)})
 		c.Run.Sample(map[string]any{"rule": pool[n/2].text, "key(class,specific,count)": pool[n/2].key()})
 		c.Run.Set("pool_size", int64(n))
